@@ -236,7 +236,10 @@ class BufRun:
                 if n >= 1:
                     if code == 0:
                         if not (1 <= len(val) <= n):
-                            mon.append(f"op {idx}: receive({n}) returned {len(val)} bytes")
+                            if not buf0 and len(pieces) == np0 + 1 and pieces[-1] == b"" and val == b"":
+                                flags.add("empty_chunk_of_a_contract_violating_wrapped_stream_passed_on")
+                            else:
+                                mon.append(f"op {idx}: receive({n}) returned {len(val)} bytes")
                         if buf0 and (val != buf0[:n] or np0 != len(pieces)):
                             mon.append(f"op {idx}: receive({n}) with buffered data {buf0!r} returned {val!r} / touched the wrapped stream")
                         if not buf0 and self.kind and len(pieces[-1]) > n:
@@ -583,30 +586,35 @@ def split_variants(rng, data, limit):
     return out
 
 
+def text_plan(tier):
+    """(code point alphabet, max string length, max number of chunkings per byte string)"""
+    if tier == "quick":
+        return [(CPS[:8], 2, 32)]
+    return [(CPS, 2, 256), (CPS[:6], 3, 64)]
+
+
 def text_cases(rng, tier):
     """Generator of TextRun objects; returns through `stats` the exhaustive bounds."""
     quick = tier == "quick"
-    alpha = CPS[:8] if quick else CPS
-    maxlen = 2 if quick else 3
-    limit = 64 if quick else 512
     # (1) round trip: real TextSendStream, then every re-chunking of the produced bytes into the real TextReceiveStream
-    for enc in range(len(ENCODINGS)):
-        for ln in range(0, maxlen + 1):
-            for cps in itertools.product(alpha, repeat=ln):
-                if enc == 1 and any(c > 255 for c in cps) and ln > 1:
-                    continue
-                # one send per string of the split (1 or 2 sends)
-                for cut in ([ln] if ln < 2 else [ln, 1]):
-                    strings = [list(cps[:cut])] + ([list(cps[cut:])] if cut < ln else [])
-                    s = TextRun(enc, [], [("s", x) for x in strings] + drain_ops(len(strings)),
-                                use_textstream=(ln + enc) % 2 == 0)
-                    yield s
-                    if 5 in s.outs[::1] and "encode_error" in s.flags:
+    for (alpha, maxlen, limit) in text_plan(tier):
+        for enc in range(len(ENCODINGS)):
+            for ln in range(0, maxlen + 1):
+                for cps in itertools.product(alpha, repeat=ln):
+                    if enc == 1 and any(c > 255 for c in cps) and ln > 1:
                         continue
-                    data = b"".join(s.sent_bytes)
-                    for ch in split_variants(rng, list(data), limit):
-                        yield TextRun(enc, ch, drain_ops(len(ch)), expect=[to_str(x) for x in strings],
-                                      sent_before=len(strings))
+                    # one send per string of the split (1 or 2 sends)
+                    for cut in ([ln] if ln < 2 else [ln, 1]):
+                        strings = [list(cps[:cut])] + ([list(cps[cut:])] if cut < ln else [])
+                        s = TextRun(enc, [], [("s", x) for x in strings] + drain_ops(len(strings)),
+                                    use_textstream=(ln + enc) % 2 == 0)
+                        yield s
+                        if "encode_error" in s.flags:
+                            continue
+                        data = b"".join(s.sent_bytes)
+                        for ch in split_variants(rng, list(data), limit):
+                            yield TextRun(enc, ch, drain_ops(len(ch)), expect=[to_str(x) for x in strings],
+                                          sent_before=len(strings))
     # (2) encode errors: lone surrogates, out-of-range for latin-1
     for enc in range(len(ENCODINGS)):
         for cps in ([0xD800], [0x41, 0xDFFF], [0x100], [0x41, 0x20AC, 0x42], [0xDBFF, 0xDC00]):
@@ -618,20 +626,20 @@ def text_cases(rng, tier):
             yield TextRun(0, [list(data)], drain_ops(1))
             if ln > 1:
                 yield TextRun(0, [[b] for b in data], drain_ops(ln))
-                if ln > 2:
+                if ln == 3:
                     yield TextRun(0, [list(data[:1]), list(data[1:])], drain_ops(2))
                     yield TextRun(0, [list(data[:2]), list(data[2:])], drain_ops(2))
-    n16 = 4 if quick else 5
     for enc in (2, 3, 4):
-        for ln in range(1, n16 + 1):
+        for ln in range(1, 5 + (0 if quick or enc != 2 else 1)):
             for data in itertools.product(U16_BYTES, repeat=ln):
                 if quick and ln == 4 and enc != 2 and data[0] not in (0x00, 0xD8, 0xDC, 0x41):
                     continue
                 yield TextRun(enc, [list(data)], drain_ops(1))
                 if ln > 1:
                     yield TextRun(enc, [[b] for b in data], drain_ops(ln))
-                    k = 1 + (sum(data) % (ln - 1))
-                    yield TextRun(enc, [list(data[:k]), list(data[k:])], drain_ops(2))
+                    if ln < 5:
+                        k = 1 + (sum(data) % (ln - 1))
+                        yield TextRun(enc, [list(data[:k]), list(data[k:])], drain_ops(2))
     u32 = [0x00, 0x41, 0x10, 0x11, 0xD8, 0xFE, 0xFF]
     for enc in (5, 6, 7):
         for ln in (4,) if quick else (1, 2, 3, 4):
@@ -885,13 +893,14 @@ def check(tier: str) -> int:
                 "of the predicates listed under `reached`",
         "exhaustive": True,
         "exhaustive_bounds": {"buffered": bounds, "buffered_cases": n_ex, "buffered_wall_s": round(t_ex, 1),
-                              "text": {"code_points": [hex(c) for c in (CPS[:8] if quick else CPS)],
-                                       "string_length_upto": 2 if quick else 3, "sends": "1 or 2",
-                                       "chunkings": f"all when <= {64 if quick else 512}, else whole/bytewise/random",
+                              "text": {"roundtrip_plan": [{"code_points": [hex(c) for c in a], "string_length_upto": m,
+                                                           "chunkings": f"all when <= {l}, else whole/bytewise/random up to {l}"}
+                                                          for (a, m, l) in text_plan(tier)],
+                                       "sends": "1 or 2",
                                        "utf8_byte_alphabet": [hex(b) for b in U8_BYTES],
                                        "utf8_sequences_upto": 3 if quick else 4,
                                        "utf16_byte_alphabet": [hex(b) for b in U16_BYTES],
-                                       "utf16_sequences_upto": 4 if quick else 5,
+                                       "utf16_sequences_upto": "4 (utf-16, -le, -be)" if quick else "5 (utf-16), 4 (-le, -be)",
                                        "encodings": ENCODINGS}},
         "random_cases": {"buffered": n_rand + 1, "text": 1500 if quick else 20000},
         "corpus_cases": n_corpus,
